@@ -70,21 +70,82 @@ func c07Amd64(r *Report, u *AsmUnit) {
 		return
 	}
 	a := newCFG(rt, flow)
-	// which successor is the match arm? the one that stores 1 into the result slot
-	matchBlock := -1
-	for _, s := range verdict.Succ {
-		b := a.blocks[a.blockOf[s]]
-		for i := b.start; i < b.end; i++ {
-			in := rt.Instrs[i]
-			if in.Op == "MOVQ" && len(in.Args) == 2 && in.Args[0].Kind == OImm && in.Args[0].Imm == 1 && in.Args[1].Kind == OFP {
-				matchBlock = b.id
+	// which successor is the match arm? the one from which every return leaves the constant 1 in the result slot; from the
+	// other one every return must leave 0 (constant propagation of the result slot over the control-flow graph)
+	resStore := map[int]uint8{} // instruction -> value class stored into the result slot: 1 = {0}, 2 = {1}, 4 = other
+	for _, acc := range flow.Accesses {
+		if acc.Mem.Store && acc.Mem.FPSlot {
+			in := acc.Instr
+			cl := uint8(4)
+			if len(in.Args) == 2 && in.Args[0].Kind == OImm {
+				switch in.Args[0].Imm {
+				case 0:
+					cl = 1
+				case 1:
+					cl = 2
+				}
 			}
+			resStore[in.Idx] = cl
 		}
 	}
-	if matchBlock < 0 {
-		r.Viol("RELEASE-AFTER-MATCH", "amd64/openAsm match arm", verdict.Pos, "neither arm of the verdict branch stores the constant 1 into the result")
+	isRet := func(b *xBlock) bool { return b.end > b.start && rt.Instrs[b.end-1].Op == "RET" }
+	// forward propagation from a set of seeded blocks; returns the union of the classes at the returns reached
+	propagate := func(seed map[int]uint8, upto int) (atRet uint8, atInstr uint8) {
+		in := map[int]uint8{}
+		var work []int
+		for b, v := range seed {
+			in[b] = v
+			work = append(work, b)
+		}
+		for len(work) > 0 {
+			b := a.blocks[work[len(work)-1]]
+			work = work[:len(work)-1]
+			v := in[b.id]
+			for i := b.start; i < b.end; i++ {
+				if i == upto {
+					atInstr |= v
+				}
+				if c, ok := resStore[i]; ok {
+					v = c
+				}
+			}
+			if isRet(b) {
+				atRet |= v
+				continue
+			}
+			for _, s := range b.succ {
+				if in[s]|v != in[s] {
+					in[s] |= v
+					work = append(work, s)
+				}
+			}
+		}
 		return
 	}
+	_, atVerdict := propagate(map[int]uint8{0: 8}, verdict.Idx) // 8 = not yet stored
+	matchBlock := -1
+	var arms []string
+	okArms := len(verdict.Succ) == 2
+	for _, s := range verdict.Succ {
+		b := a.blockOf[s]
+		atRet, _ := propagate(map[int]uint8{b: atVerdict}, -1)
+		arms = append(arms, fmt.Sprintf("%s -> result classes %#x", rt.Instrs[s].Pos, atRet))
+		switch atRet {
+		case 2:
+			if matchBlock >= 0 {
+				okArms = false
+			}
+			matchBlock = b
+		case 1:
+		default:
+			okArms = false
+		}
+	}
+	if matchBlock < 0 || !okArms {
+		r.Viol("RELEASE-AFTER-MATCH", "amd64/openAsm match arm", verdict.Pos, "the two arms of the verdict branch do not leave the constants 1 (match) and 0 (mismatch) in the result on all their returns: "+strings.Join(arms, "; "))
+		return
+	}
+	r.Ok("VERDICT-VALUE", "amd64/openAsm result", verdict.Pos, "every return reached from the match arm leaves 1 in the result slot and every return reached from the other arm leaves 0: "+strings.Join(arms, "; "))
 	r.Ok("SINGLE-VERDICT", "amd64/openAsm", verdict.Pos, "single loop-free verdict branch: "+verdict.Raw)
 	nst, bad := 0, 0
 	for _, acc := range flow.Accesses {
